@@ -53,10 +53,22 @@ def _event():
 def strategy(draw, tier="quick"):
     store = [draw(st.lists(_event(), max_size=6)) for _ in BUCKETS]
     prog = draw(qlang.programs(BUCKETS))
+    if draw(st.integers(0, 7)) == 0:
+        # the same long literal text evaluated twice with a variable rebound in between
+        pad = {"t": "str", "v": "p" * draw(st.sampled_from([10, 70, 200])), "q": '"'}
+        v1, v2 = draw(qlang.lit_int()), draw(qlang.lit_int())
+        lit = draw(st.sampled_from(["list", "dict", "call"]))
+        if lit == "list":
+            e = {"t": "list", "v": [{"t": "var", "v": "a"}, pad, {"t": "list", "v": [{"t": "var", "v": "a"}]}]}
+        elif lit == "dict":
+            e = {"t": "dict", "v": [[{"t": "str", "v": "k", "q": "'"}, {"t": "var", "v": "a"}], [{"t": "str", "v": "pad", "q": '"'}, pad]]}
+        else:
+            e = {"t": "list", "v": [{"t": "call", "f": "limit_events", "a": [{"t": "list", "v": [pad, pad, pad]}, {"t": "var", "v": "a"}]}]}
+        prog = [{"var": "a", "e": v1}, {"var": "x9", "e": e}, {"var": "a", "e": v2}] + prog[:-1] + [{"var": "RETURN", "e": {"t": "list", "v": [e, {"t": "var", "v": "x9"}]}}]
     ws = draw(st.lists(st.integers(0, 4), min_size=1, max_size=12))
     if all(w == 0 for w in ws):
         ws[0] = 1
-    return {"store": store, "prog": prog, "ws": ws}
+    return {"store": store, "prog": prog, "ws": ws, "junk_first": draw(st.sampled_from([0, 0, 0, 0, 0, 1, 1, 2]))}
 
 
 def known_key(case, v):
@@ -101,6 +113,21 @@ def run_case(case):
             exp = ("value", qlang.canon_value(qlang.reference_eval(prog, ds, "q", start, end)))
         except Exception as ex:
             exp = ("raises", type(ex).__name__)
+        # earlier queries in the same process - rejected ones included - are no business of this program
+        import gc
+
+        gc_was = gc.isenabled()
+        gc.disable()  # (a collection half-way down a 1100-deep parse only prints noise from the collector's own callbacks)
+        try:
+            for junk in (["RETURN=[[[[1", "a=nop(;RETURN={'k':[1,}"], ["RETURN=" + "[" * 1100 + "]" * 1100])[: case.get("junk_first", 0)]:
+                for j in junk:
+                    try:
+                        query("q", j, start, end, ds)
+                    except Exception:
+                        pass
+        finally:
+            if gc_was:
+                gc.enable()
         outs = []
         for text in (compact, spaced):
             try:
